@@ -91,14 +91,14 @@ def run(ctx):
               "correct_pva as the definition of the error convention (its own contract: C05)", "spec/frames.py")
     ctx.assume("Taylor's theorem for 'H is the derivative of the residual'", "|pitch| <= 85 deg")
 
-    _absent(ctx, py)
+    ctx.guard(_absent, ctx, py)
 
     for kind in ("Position", "NedVelocity", "BodyVelocity"):
         for wa in (True, False):
             for lever in ((True, False) if kind != "BodyVelocity" else (False,)):
                 for rates in ((True, False) if kind == "NedVelocity" else (False,)):
                     _one(ctx, py, kind, wa, lever, rates)
-    _generators(ctx, py)
+    ctx.guard(_generators, ctx, py)
 
 
 # -----------------------------------------------------------------------------------------------
